@@ -928,6 +928,9 @@ impl ParserListener for Screen {
                 if y + count <= bottom as u32 {
                     if let Some(line) = self.buffer.remove(&y) {
                         self.buffer.insert(y + count, line);
+                    } else {
+                        // A never-written row is blank: the destination becomes blank too.
+                        self.buffer.remove(&(y + count));
                     }
                 } else {
                     self.buffer.remove(&y);
@@ -951,6 +954,9 @@ impl ParserListener for Screen {
                 if y + count <= bottom {
                     if let Some(line) = self.buffer.remove(&(y + count)) {
                         self.buffer.insert(y, line);
+                    } else {
+                        // A never-written row is blank: the destination becomes blank too.
+                        self.buffer.remove(&y);
                     }
                 } else {
                     self.buffer.remove(&y);
